@@ -80,6 +80,8 @@ pub struct Policy {
     pub fail_mmap_all: bool,
     /// 0-based indices of mprotect calls that fail
     pub fail_mprotect: Vec<u64>,
+    /// address ranges on which every mprotect fails (pages that can never be made writable)
+    pub mprotect_deny: Vec<(u64, u64)>,
     pub mmap_min_addr: u64,
     pub user_limit: u64,
     pub win_granule: u64,
@@ -95,6 +97,7 @@ impl Default for Policy {
             fail_mmap: Vec::new(),
             fail_mmap_all: false,
             fail_mprotect: Vec::new(),
+            mprotect_deny: Vec::new(),
             mmap_min_addr: 0x1000,
             user_limit: 0x5000_0000_0000,
             win_granule: 0x10000,
@@ -450,7 +453,8 @@ impl World {
             self.counters.mprotect_calls += 1;
         }
         let mut ret = 0;
-        if faultable && self.policy.fail_mprotect.binary_search(&idx).is_ok() {
+        let denied = faultable && self.policy.mprotect_deny.iter().any(|(lo, hi)| addr < *hi && addr.saturating_add(len) > *lo);
+        if denied || (faultable && self.policy.fail_mprotect.binary_search(&idx).is_ok()) {
             self.counters.mprotect_injected_fail += 1;
             ret = -1;
         } else if addr % self.page_size != 0 {
